@@ -169,6 +169,15 @@ def probes():
         ('*(a/)', (('ext', '*', ((a, SEP1),)),)),
         ('a/@(b|c/)', (a, SEP1, ('ext', '@', ((b,), (c, SEP1))))),
         ('!(a/b)', (('ext', '!', ((a, SEP1, b),)),)),
+        # runs of separators count as one, however the members are spelled and whatever stands in front of them
+        ('a/\\/b', (a, SEP1, b)),
+        ('a\\/\\/b', (a, SEP1, b)),
+        ('a\\//b', (a, SEP1, b)),
+        ('a/**/**//b', (a, SEP1, ('star', 2), SEP1, ('star', 2), SEP1, b)),
+        ('a/**/\\/b', (a, SEP1, ('star', 2), SEP1, b)),
+        ('**//**//b', (('star', 2), SEP1, ('star', 2), SEP1, b)),
+        ('a/**/**/\\/**/b', (a, SEP1, ('star', 2), SEP1, ('star', 2), SEP1, ('star', 2), SEP1, b)),
+        ('*\\//?', (pat.STAR, SEP1, pat.Q)),
     ]
 
 
